@@ -258,14 +258,24 @@ func sBigStr(s string) string {
 func (e *Env) localByName(name string) (Val, bool) {
 	// prefer phis of the innermost loop headers that are currently cut
 	var best ssa.Value
+	bestScore := 0
 	for _, b := range e.fn.Blocks {
 		for _, in := range b.Instrs {
 			switch v := in.(type) {
 			case *ssa.Phi:
 				if v.Comment == name {
 					if _, ok := e.st.vals[v]; ok {
-						if best == nil || e.st.cuts[b] != nil {
-							best = v
+						// the phi of the block the clause is attached to wins; then phis of cut
+						// loop heads; then any merge point
+						score := 1
+						if e.st.cuts[b] != nil {
+							score = 2
+						}
+						if e.block != nil && b == e.block {
+							score = 3
+						}
+						if best == nil || score > bestScore || (score == bestScore && score == 2) {
+							best, bestScore = v, score
 						}
 					}
 				}
@@ -1175,9 +1185,13 @@ func (e *Env) evalCall(n *ast.CallExpr) Val {
 			return boolVal("false")
 		}
 		return e.loadGhost(ref, gs, fname)
-	case "recvsum", "recvcount", "sentcount", "chanclosed":
+	case "recvcat", "sentcat":
 		v := arg(0)
-		id := map[string]int{"recvsum": 901, "recvcount": 902, "sentcount": 903, "chanclosed": 904}[fname]
+		id := map[string]string{"recvcat": "906", "sentcat": "907"}[fname]
+		return seqVal(e.r.bind(e.st, sx("select", e.st.heap["S"], sx("fld", v.S, id)), fname, "BSeq"))
+	case "recvsum", "recvcount", "sentcount", "chanclosed", "sentsum":
+		v := arg(0)
+		id := map[string]int{"recvsum": 901, "recvcount": 902, "sentcount": 903, "chanclosed": 904, "sentsum": 905}[fname]
 		cell := sx("fld", v.S, fmt.Sprint(id))
 		if fname == "chanclosed" {
 			return boolVal(e.r.bind(e.st, sx("select", e.st.heap["B"], cell), fname, "Bool"))
